@@ -27,8 +27,27 @@ class DependencyWriter(metaclass=ABCMeta):
         self, dependencies: list[Dependency], dry_run: bool = False
     ) -> Optional[ChangeSet]:
         if new_dependencies := self.add(dependencies):
-            return self.add_to_file(new_dependencies, dry_run)
+            original = self._read_bytes()
+            changeset = self.add_to_file(new_dependencies, dry_run)
+            if changeset is None and original is not None:
+                # a write that failed half-way (disk full) must not leave a
+                # truncated manifest behind
+                self._restore(original)
+            return changeset
         return None
+
+    def _read_bytes(self) -> Optional[bytes]:
+        try:
+            return self.path.read_bytes()
+        except OSError:
+            return None
+
+    def _restore(self, original: bytes) -> None:
+        try:
+            if self.path.read_bytes() != original:
+                self.path.write_bytes(original)
+        except OSError:
+            pass
 
     def add(self, dependencies: list[Dependency]) -> list[Dependency]:
         """add any number of dependencies to the end of list of dependencies."""
